@@ -64,3 +64,42 @@ Print Assumptions C01_fn_window_exact.
 Print Assumptions C01_refuted.
 Print Assumptions C01_drain_refuted.
 Print Assumptions C01_nonvacuous.
+
+From HT Require Import Amm.Known World.World Proofs.WFProofs Proofs.ReachProofs Proofs.SolventProofs Proofs.ReachCorollaries.
+Theorem C01_tx_reachable : forall w0 w p ps c d amount bp ms to w',
+  WF w0 -> Solvent w0 -> reachable w0 w ->
+  w_pairs w p = Some ps -> c <> p ->
+  exec w (OSwap p c [(d, amount)] (ANative d) amount bp ms to) = Ok w' ->
+  let offer := ANative d in
+  let ask := if asset_eqb offer (p_a0 ps) then p_a1 ps else p_a0 ps in
+  let rcv := match to with Some t => t | None => c end in
+  rcv <> p ->
+  kf_c01 (bal w offer p) (bal w ask p) amount (p_comm ps) = false ->
+  bal w offer p * bal w ask p <= bal w' offer p * bal w' ask p /\
+  (0 < bal w ask p -> 0 < bal w' ask p) /\
+  (bal w ask p - bal w' ask p) * (bal w offer p + amount) <= bal w ask p * amount.
+Proof. exact swap_tx_product_reachable. Qed.
+Print Assumptions C01_tx_reachable.
+
+Theorem C01_tx_hook_reachable : forall w0 w ta sender p ps n offer amount bp ms to w',
+  WF w0 -> Solvent w0 -> reachable w0 w ->
+  w_pairs w p = Some ps -> sender <> p ->
+  exec w (OSend ta sender p n (HSwap offer amount bp ms to)) = Ok w' ->
+  let ask := if asset_eqb offer (p_a0 ps) then p_a1 ps else p_a0 ps in
+  let rcv := match to with Some t => t | None => sender end in
+  rcv <> p ->
+  kf_c01 (bal w offer p) (bal w ask p) amount (p_comm ps) = false ->
+  bal w offer p * bal w ask p <= bal w' offer p * bal w' ask p /\
+  (0 < bal w ask p -> 0 < bal w' ask p) /\
+  (bal w ask p - bal w' ask p) * (bal w offer p + amount) <= bal w ask p * amount.
+Proof. exact swap_hook_tx_product_reachable. Qed.
+Print Assumptions C01_tx_hook_reachable.
+
+Theorem C01_offer_reserve_reachable : forall w0 w p ps c d amount bp ms to w',
+  WF w0 -> Solvent w0 -> reachable w0 w ->
+  w_pairs w p = Some ps -> c <> p ->
+  exec w (OSwap p c [(d, amount)] (ANative d) amount bp ms to) = Ok w' ->
+  (match to with Some t => t | None => c end) <> p ->
+  0 < bal w (ANative d) p /\ bal w' (ANative d) p = bal w (ANative d) p + amount /\ amount < W128.
+Proof. exact swap_tx_offer_reserve_reachable. Qed.
+Print Assumptions C01_offer_reserve_reachable.
